@@ -285,7 +285,7 @@ def check_bulk_fetch(ctx: Ctx, rep: Report, wm: WalkModel, r0: str = "C02-R0", r
     for meth in client.methods.values():
         for n in own_nodes(meth.node):
             if isinstance(n, ast.Call) and wm.walk in [c for c in ctx.r.callees(meth, n) if isinstance(c, FuncInfo)]:
-                b = bind_call_args(n, wm.walk.params)
+                b = bind_call_args(n, wm.walk.params, defs=ctx.defs(meth))
                 if isinstance(b.get(wm.fetch_param), ast.Call):
                     bulkwalk = (meth, n, b)
     if bulkwalk is None:
@@ -336,9 +336,13 @@ def check_bulk_fetch(ctx: Ctx, rep: Report, wm: WalkModel, r0: str = "C02-R0", r
         if isinstance(src, ast.Name):
             src = ctx.defs(meth).single(src.id) or src
         body = loop.body
+        unpacked = None
+        if len(body) == 2 and isinstance(body[0], ast.Assign) and len(body[0].targets) == 1 and isinstance(body[0].targets[0], ast.Tuple) and norm(body[0].value) == norm(loop.target):
+            unpacked, body = body[0].targets[0], body[1:]  # for item in walk: oid, value = item; yield ...
         if src is call and len(body) == 1 and isinstance(body[0], ast.Expr) and isinstance(body[0].value, ast.Yield):
             y = body[0].value.value
-            tn = [norm(t) for t in (loop.target.elts if isinstance(loop.target, ast.Tuple) else [loop.target])]
+            tgt_ = unpacked if unpacked is not None else loop.target
+            tn = [norm(t) for t in (tgt_.elts if isinstance(tgt_, ast.Tuple) else [tgt_])]
             ok = norm(y) in (tn[0], f"VarBind({', '.join(tn)})") if y is not None else False
     rep.check(ok, r0, meth.site(), f"{meth.name}: yields every item of the shared walk unchanged (field-wise rebuild allowed)", key=f"{meth.key}|yields-all")
 
